@@ -222,6 +222,7 @@ type genomeSpec struct {
 	HiddenFirst             bool // hidden nodes get ids before the outputs (as newGenomeRand does)
 	AllowBackEdges          bool // non-recurrent flagged genes may go against the node order
 	Activations             bool // random activation types on neurons
+	SensorsLate             bool // the output nodes get the lowest ids, the sensors follow them (ids ascending, sensors not first)
 }
 
 func genSpec(r *rand.Rand) genomeSpec {
@@ -230,7 +231,7 @@ func genSpec(r *rand.Rand) genomeSpec {
 		Traits: 1 + r.Intn(4), TraitBase: pick(r, 1, 1, 1, 2, 5),
 		GeneProb: 0.15 + r.Float64()*0.6, DisabledProb: pick(r, 0.0, 0.15, 0.4), RecurProb: pick(r, 0.0, 0.1, 0.3),
 		SelfLoopProb: pick(r, 0.0, 0.2), NilTraitProb: pick(r, 0.0, 0.3, 1.0), HiddenFirst: r.Intn(3) == 0,
-		AllowBackEdges: r.Intn(8) == 0, Activations: r.Intn(2) == 0,
+		AllowBackEdges: r.Intn(8) == 0, Activations: r.Intn(2) == 0, SensorsLate: r.Intn(8) == 0,
 	}
 }
 
@@ -259,14 +260,19 @@ func buildGenome(r *rand.Rand, sp genomeSpec, id int) *genetics.Genome {
 		sensors = append(sensors, nextId)
 		nextId++
 	}
-	if sp.Bias == 1 {
-		addSensor(network.BiasNeuron)
+	addSensors := func() {
+		if sp.Bias == 1 {
+			addSensor(network.BiasNeuron)
+		}
+		for i := 0; i < sp.Inputs; i++ {
+			addSensor(network.InputNeuron)
+		}
+		if sp.Bias == 2 {
+			addSensor(network.BiasNeuron)
+		}
 	}
-	for i := 0; i < sp.Inputs; i++ {
-		addSensor(network.InputNeuron)
-	}
-	if sp.Bias == 2 {
-		addSensor(network.BiasNeuron)
+	if !sp.SensorsLate {
+		addSensors()
 	}
 	addNeuron := func(neuron network.NodeNeuronType) {
 		act := neatmath.SigmoidSteepenedActivation
@@ -278,17 +284,29 @@ func buildGenome(r *rand.Rand, sp genomeSpec, id int) *genetics.Genome {
 		nextId++
 	}
 	var hidden, outputs []int
-	if sp.HiddenFirst {
+	if sp.SensorsLate {
+		for i := 0; i < sp.Outputs; i++ {
+			addNeuron(network.OutputNeuron)
+			outputs = append(outputs, nextId-1)
+		}
+		addSensors()
+		for i := 0; i < sp.Hidden; i++ {
+			addNeuron(network.HiddenNeuron)
+			hidden = append(hidden, nextId-1)
+		}
+	} else if sp.HiddenFirst {
 		for i := 0; i < sp.Hidden; i++ {
 			addNeuron(network.HiddenNeuron)
 			hidden = append(hidden, nextId-1)
 		}
 	}
-	for i := 0; i < sp.Outputs; i++ {
-		addNeuron(network.OutputNeuron)
-		outputs = append(outputs, nextId-1)
+	if !sp.SensorsLate {
+		for i := 0; i < sp.Outputs; i++ {
+			addNeuron(network.OutputNeuron)
+			outputs = append(outputs, nextId-1)
+		}
 	}
-	if !sp.HiddenFirst {
+	if !sp.HiddenFirst && !sp.SensorsLate {
 		for i := 0; i < sp.Hidden; i++ {
 			addNeuron(network.HiddenNeuron)
 			hidden = append(hidden, nextId-1)
